@@ -648,4 +648,46 @@ example : (runX { length := some 7, maxbytes := none, bufsize := 3 }
     (init [97,10,98,99,10,100,101,120] [0] none) [.base (.read (some 1)), .iter]).1
       = [.base (.bytes [97]), .yielded (.ok ()) [[10],[98,99,10],[100,101]]] := by decide
 
+/-! ### transient faults of the underlying stream -/
+
+theorem inv_armNext (cfg : Cfg) (s : St) (plan : List Nat) (hi : Inv cfg s) : Inv cfg (armNext s plan).1 := by
+  cases plan <;> exact ⟨hi.acct, hi.bound⟩
+
+theorem runF_inv (cfg : Cfg) (hb : 1 ≤ cfg.bufsize) : ∀ ops s plan, Inv cfg s → Inv cfg (runF cfg s plan ops).2 := by
+  intro ops
+  induction ops with
+  | nil => intro s plan hi; exact hi
+  | cons op ops ih =>
+    intro s plan hi
+    simp only [runF]
+    have i1 := (C05X_step cfg hb s hi op).1
+    split
+    · exact ih _ _ (inv_armNext cfg _ plan i1)
+    · exact ih _ _ i1
+
+/-- **C05, bounded, under transient faults of the connection.**  Whatever the operations, and whenever the
+    underlying stream raises (any plan of transient faults, each aborting the operation it hits, the
+    application reading on afterwards): the stream is never read beyond the declared length — a pipelined
+    following request is left intact also after errors — and the accounting invariant
+    (`bytes handed out = bytes_read + |buffer|`) holds throughout. -/
+theorem C05F_never_overreads (cfg : Cfg) (hb : 1 ≤ cfg.bufsize) (body : Bytes) (frag : List Nat)
+    (plan : List Nat) (ops : List OpX) (L : Nat) (hL : cfg.length = some L) :
+    (runF cfg (initF body frag plan).1 (initF body frag plan).2 ops).2.off ≤ L :=
+  (runF_inv cfg hb ops _ _ (inv_armNext cfg _ plan (init_inv cfg body frag none))).bound L hL
+
+theorem C05F_accounting (cfg : Cfg) (hb : 1 ≤ cfg.bufsize) (body : Bytes) (frag : List Nat)
+    (plan : List Nat) (ops : List OpX) :
+    let s := (runF cfg (initF body frag plan).1 (initF body frag plan).2 ops).2
+    s.off = s.bytesRead + s.buffer.length :=
+  (runF_inv cfg hb ops _ _ (inv_armNext cfg _ plan (init_inv cfg body frag none))).acct
+
+/-- non-vacuity: the fault hits the second chunk of `read()`, the first chunk is lost but counted, the
+    application reads on and gets the rest of the declared body — and not one byte of what follows it -/
+example : (runF { length := some 6, maxbytes := none, bufsize := 2 }
+    (initF [97,98,99,100,101,102,88,89] [] [1]).1 (initF [97,98,99,100,101,102,88,89] [] [1]).2
+    [.base (.read none), .base (.read none), .base (.read none)]) =
+      ([.base .err413, .base (.bytes [99,100,101,102]), .base (.bytes [])],
+       { src := [88,89], frag := [], failAt := none, off := 6, buffer := [], bytesRead := 6, done := true,
+         fins := 1 }) := by decide
+
 end CpProofs.C05
